@@ -34,6 +34,7 @@ fn op() -> BoxedStrategy<Op> {
         1 => any::<u16>().prop_map(Op::SeekSeen),
         2 => gen::policy_any().prop_map(Op::SetPolicy),
         1 => Just(Op::IntoRecords),
+        1 => (0u8..3).prop_map(Op::ShrinkSet),
     ]
     .boxed()
 }
